@@ -23,3 +23,43 @@ PROPS['C16'] = dict(
     explanation='Theorems: Compare decides the component-wise order (hence partial order laws), Merge is the join, Increment is strictly After; '
                 'tie: differential test of Compare/Merge/Increment/Compact/PruneWithMax against the model + independent oracle on the Go results + operand-immutability check.',
 )
+
+MB_TRANSITIONS = ("eU0>eU1 eU1>eC eS0>eS1 eS1>eC eC>eGo eC>exit eGo>exit pz0>exit r0>r1 r0>exit r1>rGo r1>exit rGo>exit "
+    "cStart>cDecS cStart>cLoadP cDecS>cHndS cHndS>H cLoadP>cStore cLoadP>cPopU cPopU>cDecU cPopU>cStore cDecU>cHndU cHndU>H "
+    "H>cStart cStore>cLoadN cLoadN>cLoadSyT cLoadN>cLoadSyF cLoadSyT>cReCas cLoadSyT>cLoadPz cLoadPz>cReCas cLoadPz>exit "
+    "cLoadSyF>cReCas cLoadSyF>exit cReCas>cStart cReCas>exit H>hU1 hU1>hC H>hS1 hS1>hC hC>H H>H H>hR1 hR1>H").split()
+
+PROPS['C01'] = dict(
+    modules=['Vivid.Props.C01'],
+    gens=[],
+    engines=[dict(name='mailbox', must_hit=['t:' + t for t in MB_TRANSITIONS] + ['variant:fixed'])],
+    rule='mailbox: the real UnboundedMailbox under the fine baton scheduler (every atomic op / queue op / go statement / handler call is a '
+         'scheduling point). Scenarios = sets of concurrent Enqueue(user|system) / Pause / Resume calls with handlers that call '
+         'Enqueue/Pause/Resume on their own mailbox; all schedules with <= 2 (quick) / 3 (thorough) preemptions of 10 fixed scenarios, then '
+         'seeded random schedules of random scenarios (2-6 threads, re-entrant handlers). After every step the implementation state '
+         '(status, paused, num, systemNum, queue lengths, handled counts, program point of every goroutine) is compared with the model. '
+         'Every case is a distinct schedule (non-trivial: >= 2 concurrent calls); label-coverage gate: every transition of the model must fire.',
+    trusted_base=COMMON_TRUST + ['baton scheduler + yield placement in unbounded_mailbox.go (a yield placed after instead of before an atomic op would hide an interleaving)',
+                                 'sync/atomic operations are sequentially consistent; RingQueue.Push/Pop are atomic (they run under the ring mutex) and FIFO (C02_ring_refines_fifo)'],
+    assumptions=['queues abstracted to their lengths in M2; message identity and order are covered by the ring refinement (C02) and by the harness monitor (exactly-once + per-sender FIFO by message id at quiescence)',
+                 'handlers terminate'],
+    explanation='Inductive invariant (token, counter lag, conservation, armed-wake-up, no nested spawn) over a counter-abstracted transition system with unboundedly many threads; '
+                'no-lost-wake-up and conservation at quiescence; ranking-function proof that an idle mailbox does bounded work (repaired variant) and a cycle witness for the variant as found.',
+)
+
+PROPS['C02'] = dict(
+    modules=['Vivid.Props.C02'],
+    gens=[],
+    engines=[dict(name='ring', must_hit=['growth', 'growth-boundaries-crossed']), dict(name='mailbox', must_hit=[])],
+    rule='ring: every Push/Pop sequence of length <= 12 (and Push/Pop/PopMany(2) of length <= 8) from initial sizes 1..4 (exhaustive), '
+         'then long seeded random runs from sizes 256,1,2,3,5,8,16 with drain phases crossing many growth boundaries; New(0)+Push is the excluded point (panics on both sides). '
+         'Non-trivial = at least one growth. mailbox: per-sender FIFO and system-before-user are monitored on the real mailbox under the baton scheduler.',
+    exhaustive=True,
+    trusted_base=COMMON_TRUST + ['int64 indices modelled as Nat (overflow needs 2^62 queued items)'],
+    assumptions=['ring operations are atomic (sync.Mutex); stash order and kill ordering are covered with the actor-system model (C03/C06 engines)'],
+    explanation='Refinement proof: for every initial size n > 0 and every operation sequence the ring returns what a list FIFO returns (induction over ops; growth case included).',
+)
+
+# Text of level_claimed per property (MANIFEST); NOT_APPLICABLE: properties not claimed, with reason.
+LEVEL_TEXT = {}
+NOT_APPLICABLE = {}
